@@ -106,6 +106,10 @@ pub struct Oracle {
     /// (number of granted vote responses so far, voter of the latest) - event anchor for CrashOnGrant
     pub grant_signal: Option<tokio::sync::watch::Sender<(u64, u32)>>,
     pub grant_count: u64,
+    /// highest index in the commit ledger
+    pub max_committed: u64,
+    /// node -> purge cutoffs issued (virtual ms, cutoff)
+    pub purges: BTreeMap<u32, Vec<(u64, u64)>>,
 }
 
 pub type OracleRef = Arc<Mutex<Oracle>>;
@@ -382,6 +386,24 @@ impl Oracle {
         if let Some(v) = self.views.get_mut(&node) {
             v.up = false;
             v.role = -1;
+        }
+    }
+
+    // ───────────── log compaction (C33) ─────────────
+
+    /// A node's log store is asked to purge entries up to `cutoff`.
+    pub fn on_purge(&mut self, node: u32, cutoff: u64, snapshot_boundary: Option<u64>) {
+        self.trace("purge", node as u64, cutoff, snapshot_boundary.unwrap_or(0));
+        self.probe("purge_done");
+        self.purges.entry(node).or_default().push((vnow(), cutoff));
+        if cutoff > self.max_committed {
+            self.violate("C33", "purged_uncommitted", json!({"node": node, "cutoff": cutoff, "max_committed": self.max_committed}));
+        }
+        match snapshot_boundary {
+            Some(b) if cutoff <= b => {}
+            other => {
+                self.violate("C33", "purged_without_snapshot", json!({"node": node, "cutoff": cutoff, "snapshot_boundary": other}));
+            }
         }
     }
 
